@@ -47,6 +47,8 @@ pub enum Payload {
     BogusIpVote,
     Error301,
     Error203,
+    /// a bare `r: {id}` reply (what a ping or a store acknowledgement looks like)
+    PingShaped,
     /// a byte-exact copy of the genuine reply (only meaningful from the exact address), k copies
     Duplicate(usize),
 }
@@ -63,10 +65,12 @@ pub struct Case {
     pub call: usize,
     /// inject only at requests addressed to the holder (true) or at every request (false)
     pub only_holder: bool,
+    /// one honest server (not the holder) is crashed just before the call: its request stays unanswered
+    pub dead_target: bool,
 }
 
 fn case_json(c: &Case) -> Value {
-    json!({"class":"injection","seed":c.seed.to_string(),"servers":c.servers,"source":format!("{:?}",c.source),"tid":format!("{:?}",c.tid),"point":format!("{:?}",c.point),"payload":format!("{:?}",c.payload),"call":c.call,"only_holder":c.only_holder})
+    json!({"class":"injection","seed":c.seed.to_string(),"servers":c.servers,"source":format!("{:?}",c.source),"tid":format!("{:?}",c.tid),"point":format!("{:?}",c.point),"payload":format!("{:?}",c.payload),"call":c.call,"only_holder":c.only_holder,"dead_target":c.dead_target})
 }
 
 struct Observed {
@@ -90,8 +94,7 @@ fn run_once(c: &Case, adversary: bool) -> Observed {
     let net = build_net(&w, c.servers, 0, IpPlan::PublicSecure, false, &mut rng);
     let info_hash: [u8; 20] = rng.array();
     // exactly one honest server holds a peer for the info-hash: written directly by a raw client
-    let holder = &net.nodes[rng.usize(net.nodes.len())];
-    let holder_addr = holder.addr;
+    let holder_addr = net.nodes[rng.usize(net.nodes.len())].addr;
     {
         let raw = w.raw(GENUINE_PEER);
         let id: [u8; 20] = rng.array();
@@ -116,6 +119,39 @@ fn run_once(c: &Case, adversary: bool) -> Observed {
     w.block_on(x.adht.bootstrapped(), 60 * SEC);
     w.run_for(2 * SEC);
     let xaddr = x.addr;
+    let mut net = net;
+    let mut dead_addr: Option<SocketAddrV4> = None;
+    if c.dead_target && net.nodes.len() >= 2 {
+        if let Some(i) = (0..net.nodes.len()).find(|i| net.nodes[*i].addr != holder_addr && net.nodes[*i].addr != net.boot) {
+            let n = net.nodes.remove(i);
+            dead_addr = Some(n.addr);
+            w.crash(n);
+        }
+    }
+    // call 3: the holder also stores a NEWER mutable item, so it answers X's put_mutable with 302
+    let msigner = dht::SigningKey::from_bytes(&rng.array::<32>());
+    if c.call == 3 {
+        let raw = w.raw(SocketAddrV4::new(Ipv4Addr::new(45, 45, 45, 45), 4545));
+        let id: [u8; 20] = rng.array();
+        let sg = super::srv::sign_mutable(&msigner, 9, b"newer", None);
+        let target = crate::sha1::mutable_target(&sg.k, None);
+        w.raw_send(raw, &q_get(&[0, 3], &id, &target, None), holder_addr);
+        let mut token = vec![];
+        w.run_until(2 * SEC, |w| {
+            while let Some((_, d)) = w.raw_recv(raw) {
+                if let Some(k) = Krpc::parse(&d.bytes) {
+                    if let Some(t) = k.res_bytes("token") {
+                        token = t.to_vec();
+                        return true;
+                    }
+                }
+            }
+            false
+        });
+        w.raw_send(raw, &q_put_mutable(&[0, 4], &id, &token, &target, b"newer", &sg.k, &sg.sig, 9, None, None), holder_addr);
+        w.run_for(SEC);
+        w.close_raw(raw);
+    }
     // adversary endpoints
     let z_other = w.raw(SocketAddrV4::new(Ipv4Addr::new(99, 9, 9, 9), 6881));
     let sybils: Vec<([u8; 20], SocketAddrV4)> = (0..8).map(|i| ({ let mut id = info_hash; id[19] ^= 1 + i as u8; id }, SocketAddrV4::new(Ipv4Addr::new(99, 9, 9, 10 + i as u8), 6881))).collect();
@@ -132,7 +168,7 @@ fn run_once(c: &Case, adversary: bool) -> Observed {
             }
         } else if info.to == xaddr && !info.raw {
             if let Some(k) = Krpc::parse(info.bytes) {
-                if k.y == b'r' {
+                if k.y == b'r' || k.y == b'e' {
                     replies2.lock().unwrap_or_else(|e| e.into_inner()).push((info.from, k.t.clone(), info.bytes.to_vec()));
                 }
             }
@@ -151,6 +187,10 @@ fn run_once(c: &Case, adversary: bool) -> Observed {
     let mut task: Task<Out> = match c.call {
         0 => Task::new(now, async move { Out::Peers(a.get_peers(ih).collect::<Vec<_>>().await) }),
         1 => Task::new(now, async move { Out::Put(a.announce_peer(ih, Some(7777)).await.is_ok()) }),
+        3 => {
+            let item = dht::MutableItem::new(&msigner, b"older", 3, None);
+            Task::new(now, async move { Out::Put(a.put_mutable(item, None).await.is_ok()) })
+        }
         _ => Task::new(now, async move { Out::Nodes(a.find_node(ih).await.iter().map(|n| n.address()).collect()) }),
     };
     let mut handled = 0usize;
@@ -166,7 +206,11 @@ fn run_once(c: &Case, adversary: bool) -> Observed {
             let entries: Vec<(u64, SocketAddrV4, Vec<u8>, String)> = log.lock().unwrap_or_else(|e| e.into_inner()).clone();
             for (t_sent, to, tid, qname) in entries.iter().skip(handled) {
                 handled += 1;
-                if c.only_holder && *to != holder_addr {
+                if c.dead_target && Some(*to) != dead_addr {
+                    consumed.push((*to, tid.clone()));
+                    continue;
+                }
+                if !c.dead_target && c.only_holder && *to != holder_addr {
                     consumed.push((*to, tid.clone()));
                     continue;
                 }
@@ -193,6 +237,7 @@ fn run_once(c: &Case, adversary: bool) -> Observed {
                     Payload::BogusIpVote => response(&use_tid, B::dict(vec![("id", B::bytes(&me))]), Some(&BOGUS_VOTE), Some(&VERSION_RS6)).encode(),
                     Payload::Error301 => error(&use_tid, 301, "no").encode(),
                     Payload::Error203 => error(&use_tid, 203, "no").encode(),
+                    Payload::PingShaped => response(&use_tid, B::dict(vec![("id", B::bytes(&me))]), Some(&xaddr), Some(&VERSION_RS6)).encode(),
                     Payload::Duplicate(_) => continue,
                 };
                 // genuine replies need 40..120 ms round trip
@@ -256,7 +301,6 @@ fn run_once(c: &Case, adversary: bool) -> Observed {
         obs.public_address = s.public_address;
     }
     w.set_fault(None);
-    let _ = holder;
     drop(x);
     drop(net);
     obs
@@ -292,7 +336,7 @@ pub fn scenario(r: &mut Report, c: &Case) {
                     r.violation(&format!("effect/genuine-reply-lost/{tag}"), "the value held only by the honest server was not yielded in the run with the adversary (the injection displaced the genuine reply)", case.clone(), detail(json!({})));
                 }
             }
-            1 => {
+            1 | 3 => {
                 if twin.put_ok == Some(true) && adv.put_ok != Some(true) {
                     r.violation(&format!("effect/put-result-changed/{tag}"), "the put failed only in the run with the adversary", case.clone(), detail(json!({"twin": twin.put_ok, "adv": adv.put_ok})));
                 }
@@ -319,7 +363,7 @@ pub fn scenario(r: &mut Report, c: &Case) {
         if c.call == 0 && twin.peers.iter().flatten().any(|p| *p == GENUINE_PEER) && lists_with_genuine == 0 {
             r.violation(&format!("duplicate/genuine-lost/{:?}", c.point), "with duplicates of the genuine reply in flight the value was not yielded at all", case.clone(), detail(json!({})));
         }
-        if c.call == 1 && twin.put_ok == Some(true) && adv.put_ok != Some(true) {
+        if (c.call == 1 || c.call == 3) && twin.put_ok == Some(true) && adv.put_ok != Some(true) {
             r.violation(&format!("duplicate/put-result-changed/{:?}", c.point), "duplicated replies changed the put result", case.clone(), detail(json!({})));
         }
     }
@@ -355,9 +399,10 @@ pub fn run(a: &Args) -> Report {
             source: match s("source").as_str() { "SameIpOtherPort" => Source::SameIpOtherPort, "ExactAddress" => Source::ExactAddress, _ => Source::OtherIp },
             tid: match s("tid").as_str() { "Plus1" => Tid::Plus1, "Minus1" => Tid::Minus1, "Consumed" => Tid::Consumed, _ => Tid::Outstanding },
             point: match s("point").as_str() { "After" => Point::After, "AfterExpiry" => Point::AfterExpiry, _ => Point::Before },
-            payload: match s("payload").as_str() { "BogusPeers" => Payload::BogusPeers, "BogusIpVote" => Payload::BogusIpVote, "Error301" => Payload::Error301, "Error203" => Payload::Error203, p if p.starts_with("Duplicate") => Payload::Duplicate(p.chars().filter(|c| c.is_ascii_digit()).collect::<String>().parse().unwrap_or(2)), _ => Payload::SybilNodes },
+            payload: match s("payload").as_str() { "BogusPeers" => Payload::BogusPeers, "BogusIpVote" => Payload::BogusIpVote, "Error301" => Payload::Error301, "Error203" => Payload::Error203, "PingShaped" => Payload::PingShaped, p if p.starts_with("Duplicate") => Payload::Duplicate(p.chars().filter(|c| c.is_ascii_digit()).collect::<String>().parse().unwrap_or(2)), _ => Payload::SybilNodes },
             call: c["call"].as_u64().unwrap_or(0) as usize,
             only_holder: c["only_holder"].as_bool().unwrap_or(true),
+            dead_target: c["dead_target"].as_bool().unwrap_or(false),
         };
         super::guarded(&mut r, case_json(&case), |r| scenario(r, &case));
         return r;
@@ -374,15 +419,35 @@ pub fn run(a: &Args) -> Report {
                 for tid in [Tid::Outstanding, Tid::Plus1, Tid::Minus1, Tid::Consumed] {
                     for point in [Point::Before, Point::After, Point::AfterExpiry] {
                         for payload in [Payload::SybilNodes, Payload::BogusPeers, Payload::BogusIpVote, Payload::Error301, Payload::Error203] {
-                            cases.push(Case { seed, servers, source, tid, point, payload, call, only_holder: b % 2 == 0 });
+                            cases.push(Case { seed, servers, source, tid, point, payload, call, only_holder: b % 2 == 0, dead_target: false });
                         }
                     }
                 }
             }
             for point in [Point::Before, Point::After, Point::AfterExpiry] {
                 for k in [1usize, 2, 5] {
-                    cases.push(Case { seed, servers, source: Source::ExactAddress, tid: Tid::Outstanding, point, payload: Payload::Duplicate(k), call, only_holder: b % 2 == 0 });
+                    cases.push(Case { seed, servers, source: Source::ExactAddress, tid: Tid::Outstanding, point, payload: Payload::Duplicate(k), call, only_holder: b % 2 == 0, dead_target: false });
                 }
+            }
+        }
+    }
+    // an unanswered request (its server just crashed): late messages with its id from a wrong address
+    // must stay without effect even after the request expired
+    for b in 0..bases {
+        let seed = mix(a.seed, 0xdead + b as u64);
+        for call in [0usize, 2] {
+            for source in [Source::OtherIp, Source::SameIpOtherPort] {
+                for point in [Point::Before, Point::After, Point::AfterExpiry] {
+                    for payload in [Payload::PingShaped, Payload::BogusPeers, Payload::SybilNodes] {
+                        cases.push(Case { seed, servers: 3 + b % 3, source, tid: Tid::Outstanding, point, payload, call, only_holder: false, dead_target: true });
+                    }
+                }
+            }
+        }
+        // duplicated genuine ERROR replies: one of two storing nodes answers 302, the other acks
+        for point in [Point::Before, Point::After] {
+            for k in [1usize, 2, 3] {
+                cases.push(Case { seed, servers: 2, source: Source::ExactAddress, tid: Tid::Outstanding, point, payload: Payload::Duplicate(k), call: 3, only_holder: true, dead_target: false });
             }
         }
     }
